@@ -23,7 +23,11 @@ Inductive value :=
 | VTx (t : txrec)
 | VUtxos (vals : list Z)     (* list of utxo dicts, by their values *)
 | VDict (id : Z)
-| VRaw (k : Z).              (* raw transaction hex of content k *)
+| VRaw (k : Z)               (* raw transaction hex of content k *)
+| VTxs (l : list atx)        (* list of Transaction objects (gettransactions) *)
+| VUtxoL (l : list utxo)     (* list of utxo dicts of the address index (getutxos with a cache) *)
+| VAtx (t : atx)             (* one Transaction object of the address index *)
+| VBlock (h cnt : Z) (txs : list atx) (parsed : bool).   (* Block: height, tx_count, the page of transactions (objects / ids) *)
 
 Definition truthy (v : value) : bool :=
   match v with
@@ -35,6 +39,10 @@ Definition truthy (v : value) : bool :=
   | VUtxos l => match l with [] => false | _ => true end
   | VDict _ => true
   | VRaw _ => true
+  | VTxs l => match l with [] => false | _ => true end
+  | VUtxoL l => match l with [] => false | _ => true end
+  | VAtx _ => true
+  | VBlock _ _ _ _ => true
   end.
 
 (* int / bool operands of a Python comparison; anything else raises TypeError *)
@@ -403,4 +411,287 @@ Definition lib_step (st : settings) (now dt : Z) (bc_ps q_ps q_ps_empty : list p
     | None => (SInitOk (s_res s) (s_errs s), c1)
     | Some (r, c2, s2) => (SObs r (s_res s2) (s_errs s2), c2)
     end
+  end.
+
+(* ====================================================================================================
+   The address index: gettransactions / getutxos / gettransaction over Model.CacheModel.xcache.
+
+   A provider that answers holds a VIEW of the chain (the transactions it knows, oldest first) and answers the
+   query it is asked: the transactions of the address after [after], at most [limit] of them. *)
+Inductive aoutcome := AView (view : list atx) | AOut (o : outcome).
+
+Fixpoint drop_to (aid : Z) (l : list atx) : option (list atx) :=
+  match l with
+  | [] => None
+  | t :: tl => if atx_id t =? aid then Some tl else drop_to aid tl
+  end.
+
+Definition after_slice (after : option Z) (l : list atx) : list atx :=
+  match after with
+  | None => l
+  | Some aid => match drop_to aid l with Some r => r | None => [] end
+  end.
+
+Definition prov_txs (view : list atx) (a : Z) (after : option Z) (limit : Z) : list atx :=
+  firstn (Z.to_nat limit) (after_slice after (filter (touches a) view)).
+
+(* some input of the address in [txs] spends the observed output of [t] *)
+Definition spent_in (txs : list atx) (a : Z) (t : atx) : bool :=
+  existsb (fun s => addr_is a (src_addr s) && (fst (atx_prev s) =? atx_id t) && (snd (atx_prev s) =? atx_oidx t)) txs.
+
+Definition prov_utxos (view : list atx) (a : Z) (after : option Z) (limit : Z) : list utxo :=
+  firstn (Z.to_nat limit)
+    (map utxo_of (filter (fun t => pays a t && negb (spent_in view a t)) (after_slice after (filter (touches a) view)))).
+
+Fixpoint find_atx (txid : Z) (l : list atx) : option atx :=
+  match l with
+  | [] => None
+  | t :: tl => if atx_id t =? txid then Some t else find_atx txid tl
+  end.
+
+Definition inst_txs (a : Z) (after : option Z) (limit : Z) (p : Z * aoutcome) : provider :=
+  (fst p, match snd p with AView v => Ok (VTxs (prov_txs v a after limit)) | AOut o => o end).
+Definition inst_utxos (a : Z) (after : option Z) (limit : Z) (p : Z * aoutcome) : provider :=
+  (fst p, match snd p with AView v => Ok (VUtxoL (prov_utxos v a after limit)) | AOut o => o end).
+Definition inst_tx (txid : Z) (p : Z * aoutcome) : provider :=
+  (fst p, match snd p with
+          | AView v => match find_atx txid v with Some t => Ok (VAtx t) | None => Raise 404 end
+          | AOut o => o
+          end).
+
+Definition is_nil {A} (l : list A) : bool := match l with [] => true | _ => false end.
+Definition opt_last {A} (l : list A) : option A := match rev l with x :: _ => Some x | [] => None end.
+Definition is_some {A} (o : option A) : bool := match o with Some _ => true | None => false end.
+
+(* transaction_update_spents(txs, address): the spent flag of every output of the address is recomputed from the
+   inputs of the address in the same list *)
+Definition update_spents (a : Z) (txs : list atx) : list atx :=
+  map (fun t => if pays a t then set_spent t (Some (spent_in txs a t)) else t) txs.
+
+(* the caching loop of Service.gettransactions: unconfirmed transactions are skipped, index counts the stored ones,
+   a refused transaction ends the loop and moves last_block in front of its block *)
+Fixpoint store_loop (c : xcache) (txs : list atx) (index : Z) (last_block : option Z) : xcache * option Z :=
+  match txs with
+  | [] => (c, last_block)
+  | t :: tl =>
+    if atx_height t =? 0 then store_loop c tl index last_block
+    else match xc_store_tx c t index with
+         | (StFalse, _) => (c, Some (atx_height t - 1))
+         | (StDone, c1) => store_loop c1 tl (index + 1) last_block
+         end
+  end.
+
+Fixpoint store_all (c : xcache) (txs : list atx) : xcache :=
+  match txs with
+  | [] => c
+  | t :: tl => store_all (snd (xc_store_tx c t (-1))) tl
+  end.
+
+(* (return / raise, results_cache_n, complete), cache, object *)
+Definition xret := ((wres * Z * option bool) * xcache * svc)%type.
+
+Inductive fresh_res := FOk (uptodate : bool) | FErr | FOther.
+Inductive prov_res := POk (txs : list atx) (s : svc) | PErr (w : wres) (s : svc).
+
+(* ------------------------------------------------------------------ gettransactions(address, after_txid, limit) *)
+Definition lib_gettransactions (st : settings) (now : Z) (bc_ps : list provider) (q : list (Z * aoutcome))
+    (addr : Z) (after : option Z) (limit : Z) (c : xcache) (s : svc) : xret :=
+  let s0 := set_exec s [] [] in                                             (* _reset_results *)
+  let db_addr := cache_getaddr (xc_base c) addr in
+  let caching := st_minp st <=? 1 in
+  let txs_cache := if caching then xc_gettransactions c addr after limit else [] in
+  let cn := Z.of_nat (length txs_cache) in
+  if negb (is_nil txs_cache) && (cn =? limit) then ((WRet (VTxs txs_cache), cn, None), c, s0)
+  else
+  let limit1 := if is_nil txs_cache then limit else limit - cn in
+  let qafter := match opt_last txs_cache with Some t => Some (atx_id t) | None => after end in
+  (* db_addr and db_addr.last_block and db_addr.last_block >= self.blockcount() *)
+  let '(fr, b1, s1) :=
+    match db_addr with
+    | Some r =>
+      match nz (a_last_block r) with
+      | Some lb =>
+        match lib_blockcount st now bc_ps (xc_base c) s0 with
+        | (WRet bcv, b1, s1) => (match py_ge (VInt lb) bcv with Some g => FOk g | None => FOther end, b1, s1)
+        | (WServiceErr, b1, s1) => (FErr, b1, s1)
+        | (_, b1, s1) => (FOther, b1, s1)
+        end
+      | None => (FOk false, xc_base c, s0)
+      end
+    | None => (FOk false, xc_base c, s0)
+    end in
+  let c1 := with_base c b1 in
+  match fr with
+  | FErr => ((WServiceErr, cn, None), c1, s1)
+  | FOther => ((WOtherErr, cn, None), c1, s1)
+  | FOk uptodate =>
+    let pr :=
+      if negb uptodate || negb caching then
+        let '(r, res, errs) := lib_provider_execute st (map (inst_txs addr qafter limit1) q) in
+        let s2 := set_exec s1 res errs in
+        match r with
+        | ServiceErr => PErr WServiceErr s2
+        | RetFalse => PErr WServiceErr s2                                   (* if txs is False: raise ServiceError *)
+        | Value (VTxs l) => POk l s2
+        | Value _ => PErr WOtherErr s2                                      (* for tx in txs: tx.date *)
+        end
+      else POk [] s1 in
+    match pr with
+    | PErr w s2 => ((w, cn, None), c1, s2)
+    | POk txs s2 =>
+      let all := txs_cache ++ txs in
+      if (st_minp st <=? 1) && negb (is_some after && negb (is_some db_addr)) && caching then
+        match lib_blockcount st now bc_ps (xc_base c1) s2 with              (* last_block = self.blockcount() *)
+        | (WRet bcv, b2, s3) =>
+          match balance_to_store bcv with
+          | None => ((WOtherErr, cn, None), with_base c1 b2, s3)
+          | Some lbv =>
+            let c2 := with_base c1 b2 in
+            let full := Z.of_nat (length txs) =? limit1 in
+            let lb_ok :=                                                    (* txs[-1:][0].block_height *)
+              if full then match opt_last txs with
+                           | Some t => Some (if atx_height t =? 0 then None else Some (atx_height t))
+                           | None => None
+                           end
+              else Some lbv in
+            match lb_ok with
+            | None => ((WOtherErr, cn, None), c2, s3)
+            | Some last_block =>
+              let '(c3, last_block1) :=
+                if is_nil (s_res s3) then (c2, last_block)
+                else let '(c3, lb1) := store_loop c2 txs 0 last_block in
+                     (xc_store_address c3 addr lb1 (Some 0) None (negb full), lb1) in
+              if full then ((WRet (VTxs all), cn, Some false), c3, s3)
+              else
+                let all1 := update_spents addr all in
+                let c4 := xc_store_address c3 addr last_block1 (Some 0) None true in
+                ((WRet (VTxs all1), cn, Some true), store_all c4 all1, s3)
+            end
+          end
+        | (WServiceErr, b2, s3) => ((WServiceErr, cn, None), with_base c1 b2, s3)
+        | (_, b2, s3) => ((WOtherErr, cn, None), with_base c1 b2, s3)
+        end
+      else ((WRet (VTxs all), cn, None), c1, s2)
+    end
+  end.
+
+(* ------------------------------------------------------------------ getutxos(address, after_txid, limit) with a cache *)
+Fixpoint store_utxos (c : xcache) (l : list utxo) : xcache :=
+  match l with
+  | [] => c
+  | u :: tl => store_utxos (xc_store_utxo c (u_txid u) (u_n u)) tl
+  end.
+
+Definition lib_getutxos_x (st : settings) (q : list (Z * aoutcome)) (addr : Z) (after : option Z) (limit : Z)
+    (c : xcache) (s : svc) : xret :=
+  let cached := if st_minp st <=? 1 then xc_getutxos c addr after else [] in
+  let cn := Z.of_nat (length cached) in
+  let after1 := match opt_last cached with Some u => Some (u_txid u) | None => after end in
+  let '(r, res, errs) := lib_provider_execute st (map (inst_utxos addr after1 limit) q) in
+  let s1 := set_exec s res errs in
+  match r with
+  | ServiceErr => ((WServiceErr, cn, None), c, s1)
+  | RetFalse => ((if svc_getutxos_raises_on_false then WServiceErr else WOtherErr, cn, None), c, s1)
+  | Value (VUtxoL l) =>
+    let c1 := store_utxos c l in
+    let n := Z.of_nat (length l) in
+    if negb (is_nil l) && (limit <=? n) then ((WRet (VUtxoL (cached ++ l)), cn, Some false), c1, s1)
+    else
+      let c2 := if is_some after1 then c1
+                else xc_store_address c1 addr None (Some (zsum (map u_value l))) (Some n) false in
+      ((WRet (VUtxoL (cached ++ l)), cn, None), c2, s1)
+  | Value _ => ((WOtherErr, cn, None), c, s1)
+  end.
+
+(* ------------------------------------------------------------------ gettransaction(txid) over the address index *)
+Definition lib_gettransaction_x (st : settings) (q : list (Z * aoutcome)) (txid : Z) (c : xcache) (s : svc) : xret :=
+  match (if st_minp st <=? 1 then xc_gettx c txid else None) with
+  | Some t => ((WRet (VAtx t), 1, None), c, s)
+  | None =>
+    let '(r, res, errs) := lib_provider_execute st (map (inst_tx txid) q) in
+    let s1 := set_exec s res errs in
+    match r with
+    | ServiceErr => ((WServiceErr, 0, None), c, s1)
+    | RetFalse => ((WRet (VBool false), 0, None), c, s1)
+    | Value (VAtx t) => ((WRet (VAtx t), 0, None), (if st_minp st <=? 1 then snd (xc_store_tx c t (-1)) else c), s1)
+    | Value _ => ((WOtherErr, 0, None), c, s1)
+    end
+  end.
+
+(* ------------------------------------------------------------------ getblock(height, parse_transactions, page, limit)
+   A provider that knows the block answers with its header, tx_count and the requested page of its transactions. *)
+Definition block_page (btxs : list atx) (page limit : Z) : list atx :=
+  firstn (Z.to_nat limit) (skipn (Z.to_nat ((page - 1) * limit)) btxs).
+
+Definition inst_block (h : Z) (parse : bool) (page limit : Z) (p : Z * aoutcome) : provider :=
+  (fst p, match snd p with
+          | AView v =>
+            let btxs := filter (fun t => atx_height t =? h) v in
+            if is_nil btxs then Raise 404
+            else Ok (VBlock h (Z.of_nat (length btxs)) (block_page btxs page limit) parse)
+          | AOut o => o
+          end).
+
+Fixpoint store_page (c : xcache) (txs : list atx) (index : Z) : xcache :=
+  match txs with
+  | [] => c
+  | t :: tl => store_page (snd (xc_store_tx c t index)) tl (index + 1)
+  end.
+
+Definition lib_getblock (st : settings) (q : list (Z * aoutcome)) (h : Z) (parse : bool) (page limit : Z)
+    (c : xcache) (s : svc) : xret :=
+  let blk := xc_getblock c h in
+  let txs := match blk with Some _ => xc_getblocktransactions c h page limit | None => [] end in
+  let need :=
+    match blk with
+    | None => true
+    | Some cnt =>
+      let len := Z.of_nat (length txs) in
+      let is_last := cnt <? page * limit in
+      (is_nil txs && negb (limit =? 0)) || (negb is_last && (len <? limit)) ||
+      (is_last && ((page - 1) * limit - cnt + len <? 0))
+    end in
+  if need then
+    let '(r, res, errs) := lib_provider_execute st (map (inst_block h parse page limit) q) in
+    let s1 := set_exec s res errs in
+    match r with
+    | ServiceErr => ((WServiceErr, 0, None), c, s1)
+    | RetFalse => ((WRet (VBool false), 0, None), c, s1)                   (* if not bd or isinstance(bd, bool): return False *)
+    | Value (VBlock bh cnt btxs parsed) =>
+      let c1 := if parse && (st_minp st <=? 1) then store_page c btxs ((page - 1) * limit) else c in
+      ((WRet (VBlock bh cnt btxs parsed), 0, Some (Z.of_nat (length btxs) =? cnt)), xc_store_block c1 bh cnt, s1)
+    | Value v => ((if truthy v then WOtherErr else WRet (VBool false), 0, None), c, s1)
+    end
+  else
+    match blk with
+    | Some cnt => ((WRet (VBlock h cnt txs parse), (if is_nil txs then 0 else 1), None), c, s)
+    | None => ((WOtherErr, 0, None), c, s)
+    end.
+
+Inductive xmethod :=
+| XGettransactions (addr : Z) (after : option Z) (limit : Z)
+| XGetutxos (addr : Z) (after : option Z) (limit : Z)
+| XGettransaction (txid : Z)
+| XCacheinfo (addr : Z)
+| XGetblock (h : Z) (parse : bool) (page limit : Z).
+
+Inductive xstep_obs := XInitErr | XInitOther | XObs (r : wres) (cn : Z) (complete : option bool) (res : results) (errs : errors).
+
+Definition lib_xstep (st : settings) (now dt : Z) (bc_ps : list provider) (q : list (Z * aoutcome)) (m : xmethod)
+    (c : xcache) : xstep_obs * xcache :=
+  match lib_init st now bc_ps (xc_base c) with
+  | IServiceErr => (XInitErr, c)
+  | IOtherErr => (XInitOther, c)
+  | IOk b1 s =>
+    let c1 := with_base c b1 in
+    let now' := now + dt in
+    let '((r, cn, k), c2, s2) :=
+      match m with
+      | XGettransactions a after limit => lib_gettransactions st now' bc_ps q a after limit c1 s
+      | XGetutxos a after limit => lib_getutxos_x st q a after limit c1 s
+      | XGettransaction txid => lib_gettransaction_x st q txid c1 s
+      | XCacheinfo a => ((WAddr (cache_getaddr (xc_base c1) a), 0, None), c1, s)
+      | XGetblock h parse page limit => lib_getblock st q h parse page limit c1 s
+      end in
+    (XObs r cn k (s_res s2) (s_errs s2), c2)
   end.
